@@ -219,11 +219,14 @@ class OutputAsync(addons.AddonAsync, block.SBlock):
         self._queue.put_nowait(data)
 
     async def _output_coro(self, data: Mapping) -> None:
-        args = tuple(data[k] for k in self._f_args)
-        kwargs = {k: data[k] for k in self._f_kwargs}
-        if self.debug:
-            self.log_debug("output task started; args: %s", _args_as_string(args, kwargs))
+        args: tuple = ()
+        kwargs: dict = {}
         try:
+            # an event lacking an item needed for the arguments is a failure of this output task
+            args = tuple(data[k] for k in self._f_args)
+            kwargs = {k: data[k] for k in self._f_kwargs}
+            if self.debug:
+                self.log_debug("output task started; args: %s", _args_as_string(args, kwargs))
             retval = await self._coro(*args, **kwargs)
         except asyncio.CancelledError:
             # it is assumed that the coroutine was cancelled by the control task
